@@ -216,6 +216,24 @@ def validation_variants(behs, seed):
     return out
 
 
+def webanno_jobs(tier, seed):
+    """C17: export of every annotation of every reachable store under the four export configurations; values of every
+    type and identifiers / strings decorated with quotes, backslashes, control and non-BMP characters (id styles)."""
+    quick = tier == 'quick'
+    big = dict(MaxAnns=10, MaxRes=3, MaxData=8, MaxSets=2, MaxKeys=4)
+    jobs = [mc_job('mc_complex_small', 'complex', maxanns=2)]
+    for style in range(5):
+        jobs.append(gen_job(f'webanno_core_s{style}', 'core', 2, depth=1, size='v', style=style, reads=['webanno'], **big))
+    s = seed % 5
+    jobs += [gen_job('webanno_complex_p2', 'complex', 2, depth=2, style=s, reads=['webanno'], **big),
+             gen_job('webanno_p6', 'remove', 6, depth=1, style=(s + 1) % 5, reads=['webanno'], **big),
+             gen_job('webanno_p10', 'complex', 10, depth=1, style=(s + 2) % 5, reads=['webanno'], **big),
+             gen_job('webanno_p5', 'all', 5, depth=1, size='v', style=(s + 3) % 5, reads=['webanno'], **big)]
+    if not quick:
+        jobs += [gen_job('webanno_sim', 'all', 1, simulate=200, simdepth=8, size='v', style=(s + 4) % 5, reads=['webanno'], sample_mod=3, **big)]
+    return jobs
+
+
 def validation_jobs(tier, seed):
     style = seed % 5
     quick = tier == 'quick'
@@ -277,6 +295,8 @@ def plan_for(prop, tier, seed, replay_file=None):
     if prop in ('C05', 'C11', 'C15'):
         return dict(jobs=roundtrip_jobs(prop, tier, seed), rule=STORE_RULE + '; every history is extended with serialisation round trips '
                     'after which it continues on the reloaded store', assumptions=STORE_ASSUMPTIONS)
+    if prop == 'C17':
+        return dict(jobs=webanno_jobs(tier, seed), rule=TABLE_RULE, assumptions=STORE_ASSUMPTIONS)
     if prop == 'C18':
         return dict(jobs=validation_jobs(tier, seed), rule=STORE_RULE + '; every history is followed by validate, a round trip with '
                     'stand-off text files, validate, a round trip during which one character of a text file is edited, validate',
